@@ -75,6 +75,13 @@ class C04(Prop):
         for k in (1, 2, 3):
             for sub in itertools.combinations(ps, k):
                 yield {"kind": "profile", "alts": [1, 2, 3], "orders": [list(o) for o in sub], "planted": None}
+        if self.tier == "thorough" or deep:
+            ps4 = list(itertools.permutations([1, 2, 3, 4]))
+            for k in (2, 3):
+                # every set of two / three distinct orders over four alternatives (276 + 2 024 profiles)
+                for sub in itertools.combinations(ps4, k):
+                    if k == 2 or self.tier == "thorough":
+                        yield {"kind": "profile", "alts": [1, 2, 3, 4], "orders": [list(o) for o in sub], "planted": None}
         for i in range(n):
             for c in self._random_case(rng, i):
                 yield gen.strict_case_extras(rng, c)
